@@ -22,6 +22,10 @@ Events (separated by a `/` token), `<side>` = `I` | `A`, `<now>` = clock in ms, 
 * `sched.link-final <hb> <events>` — only the final summary:
     `<quiescent> # <nextIn I> <nextOut I> <nextIn A> <nextOut A> # <n> <delivered I> # <n> <delivered A>
      # <n> <accepted I> # <n> <accepted A>`   (messages as `sess.*` message tokens)
+* `sched.link-explore <depth> <hb>` — model-only breadth-first exploration over the 6-event alphabet with state
+  hashing; on every transition it checks `absLink (step l ev) = astep (absLink l) (absEv ev)`, `SafeInv`, `SyncInv`
+  and the property's clauses (delivered is a prefix of accepted; at quiescence counters match and nothing is lost).
+  Reply: `levels <new states per level> bad <n> <first failures: reason@path>`.
 -/
 namespace Driver.Sched
 
